@@ -167,7 +167,7 @@ func emitCase(out *gal.Out, mode string, fd *FileDef, ei int, res *pkgResult, pl
 	default:
 		obs = res.Enums[e.Type]
 		if obs == nil {
-			outcome, jc.Outcome = 3, "observer_failed"
+			outcome, jc.Outcome, jc.BuildLog = 3, "observer_failed", res.BuildLog
 		} else {
 			jc.Outcome = "built"
 		}
@@ -199,17 +199,28 @@ func emitCase(out *gal.Out, mode string, fd *FileDef, ei int, res *pkgResult, pl
 		}) +
 			"; k_parses := " + gal.ListOf(obs.Parses, func(p parseOut) string {
 			return "(" + gStr(p.S) + ", (" + gRes(p.P) + ", (" + gRes(p.PS) + ", " + gRes(p.PG) + ")))"
+		}) +
+			"; k_hist := " + gal.ListOf(obs.Hist, func(h histEv) string {
+			if h.What == "values" {
+				return "(HWriteValues " + gal.Nat(h.I) + " " + gZ(h.X) + ")"
+			}
+			return "(HWriteStringValues " + gal.Nat(h.I) + " " + gStr(h.X) + ")"
+		}) +
+			"; k_values2 := " + gal.ListOf(obs.Values2, gZ) +
+			"; k_strvalues2 := " + gal.ListOf(obs.StrValues2, gStr) +
+			"; k_probes2 := " + gal.ListOf(obs.Probes2, func(p probeOut) string {
+			return "(" + gZ(p.E) + ", (" + gal.Bool(p.Valid) + ", " + gStr(p.Str) + "))"
 		}) + " |}"
 	case "c05":
 		g = "{| " + head +
-			"; k5_values := " + gal.ListOf(obs.Values, gZ) +
+			"; k5_values := " + gal.ListOf(obs.Values2, gZ) +
 			"; k5_enc := " + gal.ListOf(obs.Enc, func(x encOut) string {
 			return "(" + gZ(x.E) + ", (" + gOptStr(x.JSON) + ", (" + gOptStr(x.Text) + ", " + gOptStr(x.YAML) + ")))"
 		}) +
 			"; k5_docs := " + gal.ListOf(obs.Docs, gDoc) + " |}"
 	case "c12":
 		g = "{| " + head +
-			"; k12_values := " + gal.ListOf(obs.Values, gZ) +
+			"; k12_values := " + gal.ListOf(obs.Values2, gZ) +
 			"; k12_acc := " + gal.ListOf(obs.Acc, func(a accOut) string {
 			items := make([]string, len(a.E))
 			for i := range a.E {
